@@ -30,6 +30,22 @@ CHECKS = {
         design_ref='DESIGN.md §5 C18',
         note='Trusted base: the PICO-8 memory map constants in vf/refcodec.py.',
         technique='runtime monitoring: history monitor against a shadow-memory reference model, boundary enumeration'),
+    'C04': dict(
+        category='exploration',
+        text='The real .p8.png writer is run on generated carts (all code-size classes incl. the 0x3d00 boundary +-2 and oversize); an independent PNG decoder, '
+             'stego unpacker and :c:/raw code decoder check validity, label bits, memory layout and code; picotool\'s reader closes the round trip; '
+             'refusals are checked to leave the destination untouched. Sampled; size classes targeted.',
+        design_ref='DESIGN.md §5 C04',
+        note='Trusted base: vf/refcodec.py (PNG, stego, :c:) validated on the PICO-8-written carts in tests/testdata; fit decision uses a margin band.',
+        technique='runtime monitoring: round-trip and reference-decoder oracle on real writer output'),
+    'C05': dict(
+        category='exploration',
+        text='Producer monitor: every stream compress_code emits is parsed item by item by a validating reference decoder and must decode to the input; '
+             'consumer monitor: well-formed streams from a randomised reference encoder must decode identically in picotool. Exhaustive on all strings of '
+             'length <= 9 (thorough 11) over a 4-symbol alphabet, sampled beyond.',
+        design_ref='DESIGN.md §5 C05',
+        note='Trusted base: the :c: format as implemented in vf/refcodec.py (byte-wise copy, table, header); NUL and reserved-suffix texts excluded.',
+        technique='runtime monitoring: validating reference decoder + randomised reference encoder (differential oracle)'),
 }
 
 NOT_BUILT = 'check not built yet in this session (design in DESIGN.md §5); not claimed until its monitor runs silent on the unchanged tree'
